@@ -211,7 +211,7 @@ class ModelObject:
                     loaded_ids=loaded_ids,
                 )
                 for key, value in d["arguments"].items()
-                if value
+                if value or isinstance(value, (int, float))
             }
         elif type_ == "instance":
             class_path = get_class_path()
